@@ -1,6 +1,8 @@
 import StraxModel.Lemmas.Kill
 import StraxModel.Lemmas.PostOffice
 import StraxModel.Lemmas.NetMeasure
+import StraxModel.Lemmas.NetLive
+import StraxModel.Lemmas.NetOutcome
 /-
   C06 — failures reach the caller and never hang the pipeline.
 
@@ -422,5 +424,154 @@ example : ∃ sched, (Net.run? (d28Net true) (Net.init (d28Net true)) sched).map
     (fun s => (s.terminal (d28Net true), s.allEnded, s.outcome)) = some (true, true, some (.raised (.inj 7))) :=
   ⟨[0, 1, 2, 4, 3, 1, 1, 1, 2, 2, 0, 0, 0, 2, 2, 2, 4, 4, 4, 3, 1, 1, 2, 2, 0, 0, 2, 2, 2, 2, 5, 6, 6, 6, 6, 6, 6, 6, 6,
     6, 6, 6, 6, 6, 6, 6], by decide +kernel⟩
+
+/-! ### tree-shaped nets: no deadlock, with or without failures -/
+
+/-- `terminal` (no thread enabled) as a statement about `step` -/
+theorem terminal_iff_stuck (net : Net.Net) (s : Net.NState) (h : s.terminal net = true) (t : Nat) : Net.step net s t = none :=
+  Net.terminal_none h t
+
+/-- **No thread is left behind.**  For every tree-shaped net (`Net.TreeNet`: every mailbox has one reader that is a
+stage or the consumer, all its other readers are savers; stages have one output and read mailboxes of lower rank —
+chains and trees of single-output plugins and loaders with any savers, any stage programs with any lags, any capacity
+≥ 1, lazy or eager, with `fail` instructions anywhere: in sources, mid plugins, savers (`save` of any chunk, `close`)
+and in the consumer, also several at once), every schedule: a state in which no thread can move is a state in which
+EVERY thread has ended.  Together with `executions_finite`: every maximal execution is finite and ends with all
+threads — stages, savers, the consumer — terminated.  This is `failure_propagates` / `abandon_stops_all` /
+`terminates_without_failure` as far as termination goes; `_partial` because reconvergent DAGs and multi-output
+plugins are not covered (there the statement is false without a capacity hypothesis:
+`reconvergent_deadlock_counterexample`). -/
+theorem all_threads_end_partial (net : Net.Net) (c : Net.Cert) (hT : Net.TreeNet net c) (s : Net.NState)
+    (hr : Net.Reachable net s) (hterm : s.terminal net = true) : s.allEnded = true := by
+  have x : Net.Term net c s := ⟨hT, Net.TInv.reachable hT hr, Net.terminal_none hterm⟩
+  unfold Net.NState.allEnded
+  rw [List.all_eq_true]
+  intro ts hts
+  obtain ⟨t, ht⟩ := List.getElem?_of_mem hts
+  simp [Net.TSt.ended, x.all_ended t ts ht]
+
+/-- `abandon_stops_all`: the consumer gives up after `k` chunks (raises in its loop body, or closes the iterator, which
+`get_iter` turns into an exception thrown into the processor): an instance of the theorem above — the consumer's
+program has a `fail` after `k` reads; every pipeline thread ends, in every schedule -/
+theorem abandon_stops_all_partial (comps : Net.Components) (o : Net.Opts) (k e : Nat) (c : Net.Cert)
+    (hT : Net.TreeNet (Net.wire comps o (.failAt k e)) c) (s : Net.NState)
+    (hr : Net.Reachable (Net.wire comps o (.failAt k e)) s) (hterm : s.terminal (Net.wire comps o (.failAt k e)) = true) :
+    s.allEnded = true :=
+  all_threads_end_partial _ c hT s hr hterm
+
+/-- non-vacuity: a lazy chain `ss → mm → tt` wired by `wire` (capacity 1, two chunks), with a saver of `mm` failing at
+chunk 1, a saver of `tt` failing in `close`, and a consumer that gives up after one chunk, is tree-shaped -/
+def exChain : Net.Components :=
+  { plugins := [("tt", 2), ("mm", 1), ("ss", 0)],
+    defs := [{ cls := "Src", provides := ["ss"], dependsOn := [], prog := List.replicate 2 .emit },
+             { cls := "Mid", provides := ["mm"], dependsOn := ["ss"],
+               prog := (List.replicate 2 [Net.SInstr.read 0, .emit]).flatten ++ [.read 0] },
+             { cls := "Top", provides := ["tt"], dependsOn := ["mm"],
+               prog := (List.replicate 2 [Net.SInstr.read 0, .emit]).flatten ++ [.read 0] }],
+    loaders := [], savers := [("mm", [{ failAt := some 1, exc := 7 }]), ("tt", [{ failClose := true, exc := 9 }])],
+    targets := ["tt"] }
+
+def exChainNet : Net.Net := Net.wire exChain { allowLazy := true, maxMessages := 1 } (.failAt 1 5)
+
+example : Net.TreeNet exChainNet (Net.certOf exChainNet) := by decide +kernel
+
+/-- a tree: the target merges two sources, one of them with a lag of two chunks, eager, a source failing at its second chunk -/
+def exTree : Net.Components :=
+  { plugins := [("tt", 2), ("sa", 0), ("sb", 1)],
+    defs := [{ cls := "SA", provides := ["sa"], dependsOn := [], prog := [.emit, .fail 3, .emit] },
+             { cls := "SB", provides := ["sb"], dependsOn := [], prog := [.emit, .emit] },
+             { cls := "TT", provides := ["tt"], dependsOn := ["sa", "sb"],
+               prog := [.read 0, .read 1, .read 1, .emit, .read 0, .emit, .read 0, .read 1] }],
+    loaders := [], savers := [("sb", [{}]), ("tt", [{}])], targets := ["tt"] }
+
+def exTreeNet : Net.Net := Net.wire exTree { allowLazy := false, maxMessages := 2 } .drain
+
+example : Net.TreeNet exTreeNet (Net.certOf exTreeNet) := by decide +kernel
+
+/-- the D10 net is NOT tree-shaped (`ss` has two pipe readers) -/
+example : ¬ Net.TreeNet (d10Net 5) (Net.certOf (d10Net 5)) := by decide +kernel
+
+/-! ### tree-shaped nets: what the caller of `iter()` gets -/
+
+/-- `failure_propagates` for tree-shaped nets, every failure position(s), every schedule, lazy and eager: when nothing
+can move any more (and by `executions_finite` that happens after finitely many steps) all threads have ended, the
+consumer's `iter()` has ended with an outcome, and
+* if it raised, it raised an exception that a `fail` / `die` instruction of some stage, saver or the consumer injected —
+  never a timeout, never an exception made up on the way (`MailBoxAlreadyClosed`, a missing kill reason);
+* it returned normally only if NO thread ever raised anything, and then it has taken every message of the target and the
+  end marker: never silently truncated data.
+`_partial`: `TreeNet` (no reconvergence, no multi-output plugins); the second item needs `SinksListed` (every saver is
+in the list `iter()` checks — `wire` guarantees it, see the examples). -/
+theorem failure_propagates_partial (net : Net.Net) (c : Net.Cert) (hT : Net.TreeNet net c) (s : Net.NState)
+    (hr : Net.Reachable net s) (hterm : s.terminal net = true) :
+    s.allEnded = true ∧ ∃ out, s.outcome = some out ∧
+      (∀ e, out = .raised e → ∃ id, e = .inj id ∧ Net.Injected net id) ∧
+      (Net.SinksListed net c → out = .returned →
+        (∀ (t : Nat) (ts : Net.TSt), s.thr[t]? = some ts → ts.exc = none) ∧
+        ∃ (a : Net.AMB) (sb : Net.ASub), s.mbs[(c.src (net.threads.length - 1)).1]? = some a ∧
+          a.subs[(c.src (net.threads.length - 1)).2]? = some sb ∧ a.closed = true ∧
+          sb.next - sb.buffered = Net.tot net c (c.src (net.threads.length - 1)).1 ∧
+          a.nSent = Net.tot net c (c.src (net.threads.length - 1)).1) := by
+  refine ⟨all_threads_end_partial net c hT s hr hterm, ?_⟩
+  obtain ⟨_, out, hout⟩ := Net.final_outcome hT hr (Net.terminal_none hterm)
+  refine ⟨out, hout, ?_, ?_⟩
+  · intro e he; subst he; exact Net.raised_is_injected hT hr hout
+  · intro hSL he; subst he; exact Net.returned_means_clean hT hSL hr hout
+
+/-- contrapositive reading: if ANY thread holds an exception at the end — some plugin, loader or saver failed, at any
+chunk, or the consumer gave up — the caller does not get a normal return but one of the injected exceptions -/
+theorem failure_reaches_caller_partial (net : Net.Net) (c : Net.Cert) (hT : Net.TreeNet net c) (hSL : Net.SinksListed net c)
+    (s : Net.NState) (hr : Net.Reachable net s) (hterm : s.terminal net = true)
+    (t : Nat) (ts : Net.TSt) (hts : s.thr[t]? = some ts) (hexc : ts.exc ≠ none) :
+    ∃ id, s.outcome = some (.raised (.inj id)) ∧ Net.Injected net id := by
+  obtain ⟨_, out, hout, h1, h2⟩ := failure_propagates_partial net c hT s hr hterm
+  cases out with
+  | returned => exact absurd ((h2 hSL rfl).1 t ts hts) hexc
+  | raised e => obtain ⟨id, rfl, hinj⟩ := h1 e rfl; exact ⟨id, hout, hinj⟩
+
+/-- `terminates_without_failure` for tree-shaped nets: no `fail` / `die` anywhere ⇒ every maximal execution ends with
+all threads finished and the consumer returning normally with everything — for EVERY capacity ≥ 1 and every lag of
+every plugin (in a tree the cumulative-lag hypothesis is vacuous).  `_partial`: for reconvergent graphs the hypothesis
+"capacity exceeds the cumulative lag of every branch" is needed and that theorem is not proved; with the property's own
+hypothesis (largest single lag) it is false: `reconvergent_deadlock_counterexample`. -/
+theorem terminates_without_failure_partial (net : Net.Net) (c : Net.Cert) (hT : Net.TreeNet net c)
+    (hclean : ∀ id, ¬ Net.Injected net id) (s : Net.NState) (hr : Net.Reachable net s) (hterm : s.terminal net = true) :
+    s.allEnded = true ∧ s.outcome = some .returned := by
+  obtain ⟨h0, out, hout, h1, _⟩ := failure_propagates_partial net c hT s hr hterm
+  refine ⟨h0, ?_⟩
+  cases out with
+  | returned => exact hout
+  | raised e => obtain ⟨id, _, hinj⟩ := h1 e rfl; exact absurd hinj (hclean id)
+
+/-- non-vacuity: the hypotheses hold for wired nets, and the conclusions are the interesting ones on concrete runs -/
+example : Net.SinksListed exChainNet (Net.certOf exChainNet) := by decide +kernel
+example : Net.SinksListed exTreeNet (Net.certOf exTreeNet) := by decide +kernel
+
+/-- the lazy chain with a failing saver, a saver failing in close and a consumer giving up: this schedule ends with every
+thread finished and the consumer raising its own exception 5 (threads: 0 build:tt, 1 save_0:tt, 2 build:mm, 3 save_0:mm,
+4 build:ss, 5 main) -/
+example : (Net.run? exChainNet (Net.init exChainNet)
+    [1, 3, 5, 0, 0, 2, 2, 4, 4, 2, 2, 3, 0, 3, 0, 1, 5, 1, 5, 5, 0, 1, 5, 0, 1, 2, 3, 5, 0, 2, 3, 4, 5, 2, 4, 5, 4, 5, 5, 5, 5]).map
+    (fun s => (s.terminal exChainNet, s.allEnded, s.outcome)) = some (true, true, some (.raised (.inj 5))) := by
+  decide +kernel
+
+/-- the tree whose source `sa` fails at its second chunk: the consumer raises exception 3 -/
+example : (Net.run? exTreeNet (Net.init exTreeNet)
+    [1, 2, 3, 4, 5, 0, 2, 3, 4, 0, 2, 3, 4, 0, 0, 1, 5, 0, 1, 5, 0, 1, 5, 1, 5, 5, 5, 5, 5, 5, 5, 5, 5]).map
+    (fun s => (s.terminal exTreeNet, s.allEnded, s.outcome)) = some (true, true, some (.raised (.inj 3))) := by
+  decide +kernel
+
+/-- the same chain without any fault: returns normally -/
+def exCleanNet : Net.Net :=
+  Net.wire { exChain with savers := [("mm", [{}]), ("tt", [{}])] } { allowLazy := true, maxMessages := 1 } .drain
+
+example : Net.TreeNet exCleanNet (Net.certOf exCleanNet) ∧ Net.SinksListed exCleanNet (Net.certOf exCleanNet) := by
+  decide +kernel
+
+example : (Net.run? exCleanNet (Net.init exCleanNet)
+    [1, 3, 5, 0, 0, 2, 2, 4, 4, 2, 2, 3, 0, 3, 0, 1, 5, 1, 5, 0, 0, 2, 2, 4, 4, 2, 2, 3, 0, 3, 0, 1, 5, 1, 5, 0, 0, 2, 2, 4, 4, 2,
+     2, 3, 0, 0, 1, 5, 5, 5, 5, 5, 5, 5, 5, 5, 5]).map
+    (fun s => (s.terminal exCleanNet, s.allEnded, s.outcome)) = some (true, true, some .returned) := by
+  decide +kernel
 
 end Strax.C06
